@@ -268,6 +268,14 @@ func init() {
 					case 1:
 						flipHex(cr, "mac")
 						tag = "mac"
+						if r.Intn(3) == 0 {
+							// a MAC that is a proper prefix of the right one, empty, or the right one with bytes appended
+							var orig map[string]any
+							_ = json.Unmarshal(doc, &orig)
+							good := unhx(orig["crypto"].(map[string]any)["mac"].(string))
+							cr["mac"] = hx(Pick(r, [][]byte{good[:16], good[:1], good[:31], {}, append(append([]byte{}, good...), 0), append(append([]byte{}, good...), good...)}))
+							tag = "mac.length"
+						}
 					case 2:
 						flipHex(kp, "salt")
 						tag = "salt"
@@ -405,6 +413,13 @@ func init() {
 					if r.Intn(3) > 0 {
 						remac(t, pw) // keep the MAC valid so the code behind the MAC check is reached
 						tag += "+validmac"
+						if r.Intn(12) == 0 {
+							// ... or only a prefix of it / nothing / more than it: not a valid MAC
+							if good := unhx(fmt.Sprint(cr["mac"])); len(good) == 32 {
+								cr["mac"] = hx(Pick(r, [][]byte{good[:16], good[:1], {}, append(append([]byte{}, good...), 7)}))
+								tag = "mut.mac-length"
+							}
+						}
 					}
 					b, _ := json.Marshal(t)
 					mreq := ksReadReq(b, pw, nil)
